@@ -745,6 +745,29 @@ loop:
 					continue
 				}
 
+				// Only HEADERS opens a stream. PRIORITY may be sent for a stream
+				// in any state, idle included, and says nothing about the stream
+				// being in use (RFC 7540 5.1, 6.3): giving it a stream of its own
+				// let a peer grow the stream table by one entry per frame, and
+				// judged the request that later arrived on that id against a
+				// stream that was not a request.
+				if fr.Type() == FramePriority {
+					if fr.Body().(*Priority).Stream() == fr.Stream() {
+						sc.writeGoAway(fr.Stream(), ProtocolError, "stream that depends on itself")
+						break loop
+					}
+
+					continue
+				}
+
+				// Anything else on a stream that was never opened is a
+				// connection error, whether or not there is room for another
+				// stream (RFC 7540 5.1, idle state).
+				if fr.Type() != FrameHeaders && fr.Stream() > sc.lastID {
+					sc.writeGoAway(fr.Stream(), ProtocolError, "wrong frame on idle stream")
+					break loop
+				}
+
 				// if the client has more open streams than the maximum allowed OR
 				//   the connection is closing, then refuse the stream
 				if openStreams >= int(sc.st.maxStreams) || wasClosing {
